@@ -69,6 +69,35 @@ def check(ctx):
     ctx.assume("distributions return non-negative samples (the property's own proviso; C10 checks the engine validates them)")
 
 
+def _fresh_local_value(fn, use, v):
+    """`t = n.next_event_date ... self.current_time = t`: the local names the date when it is assigned once, in the same loop (or none) as its use, and the
+    node variable is not reassigned between the two; otherwise the expression itself"""
+    if not isinstance(v, ast.Name):
+        return v
+    defs = [x for x in ast.walk(fn) if isinstance(x, ast.Assign) and any(isinstance(t, ast.Name) and t.id == v.id for t in x.targets)]
+    stores = [x for x in ast.walk(fn) if isinstance(x, ast.Name) and x.id == v.id and isinstance(x.ctx, ast.Store)]
+    if len(defs) != 1 or len(stores) != 1 or len(defs[0].targets) != 1:
+        return v
+    d = defs[0]
+    def loops_of(x):
+        out = []
+        while getattr(x, "_parent", None) is not None and x is not fn:
+            x = x._parent
+            if isinstance(x, (ast.For, ast.While)):
+                out.append(x)
+        return out
+    if loops_of(d) != loops_of(use):
+        return v
+    o = scans.order_of(fn)
+    roots = {x.id for x in ast.walk(d.value) if isinstance(x, ast.Name)}
+    for x in ast.walk(fn):
+        if isinstance(x, ast.Name) and isinstance(x.ctx, ast.Store) and x.id in roots and o.get(id(d), -1) < o.get(id(x), -1) < o.get(id(use), -1):
+            return v
+    if not o.get(id(d), -1) < o.get(id(use), -1):
+        return v
+    return d.value
+
+
 def clock(ctx, P, iters):
     ob = ctx.ob("CLK", "current_time is written only in Simulation.__init__ (0) and in the simulate_* loops, from <n>.next_event_date with n = find_next_active_node() / event_and_return_nextnode(...)")
     n = 0
@@ -85,7 +114,7 @@ def clock(ctx, P, iters):
         if not all(x.startswith("simulate_") for x in names_):
             ctx.violation(ob, "R1.clock-writer", q, unparse(node), "clock-written-elsewhere", "the clock is advanced outside the simulate_* loops", loc(node))
             continue
-        v = node.value
+        v = _fresh_local_value(fn, node, node.value)
         okk = isinstance(v, ast.Attribute) and v.attr == "next_event_date" and isinstance(v.value, ast.Name)
         if okk:
             src = v.value.id
